@@ -47,6 +47,28 @@ def replay(p):
             pieces = list(D.data_split(data, p["b"]))
             ok = bool(pieces) and _eq(D.data_to_numpy(D.data_merge(*pieces)), data) and len(pieces) == (p["n"] + p["b"] - 1) // p["b"]
             return {"reproduced": not ok, "pieces": len(pieces)}
+        if kind == "dat_file":
+            import os
+            import tempfile
+
+            parts = ["B", "C", "D"]
+            groups = {1: [parts], 2: [parts[:1], parts[1:]], 3: [parts[:2], parts[2:]], 4: [parts[:1], parts[1:2], parts[2:]]}[p["nfiles"]]
+            rng = np.random.RandomState(2)
+            mom = {q: rng.rand(3, 4) for q in parts}
+            d = tempfile.mkdtemp(prefix="c18_")
+            try:
+                files = []
+                for i, grp in enumerate(groups):
+                    fn = os.path.join(d, "f%d.dat" % i)
+                    np.savetxt(fn, np.stack([mom[q] for q in grp]).transpose((1, 0, 2)).reshape((-1, 4)))
+                    files.append(fn)
+                loaded = D.load_dat_file(files if len(files) > 1 else files[0], parts)
+                ok = set(loaded) == set(parts) and all(np.allclose(np.asarray(loaded[q]), mom[q]) for q in parts if q in loaded)
+            finally:
+                import shutil
+
+                shutil.rmtree(d, ignore_errors=True)
+            return {"reproduced": not ok, "loaded": sorted(map(str, loaded))}
         if kind == "split_index":
             n, b, axis = p["n"], p["b"], p["axis"]
             a = np.arange(n) if axis == 0 else np.arange(3 * n).reshape(3, n)
